@@ -124,10 +124,14 @@ pub fn rename_all(doc: &q::Document) -> q::Document {
             },
         }
     }
+    // response keys must stay equal / different exactly as before: an alias that coincides with the name of a field
+    // used without alias somewhere in the document is left alone
+    let mut unaliased: HashSet<String> = HashSet::new();
+    each_selset(&mut d, &mut |ss| for x in ss.items.iter() { if let q::Selection::Field(fl) = x { if fl.alias.is_none() { unaliased.insert(fl.name.clone()); } } });
     each_selset(&mut d, &mut |ss| for x in ss.items.iter_mut() {
         match x {
             q::Selection::FragmentSpread(sp) => { sp.fragment_name = f("Fr", &sp.fragment_name); }
-            q::Selection::Field(fl) => { if let Some(a) = &fl.alias { fl.alias = Some(f("al", a)); } }
+            q::Selection::Field(fl) => { if let Some(a) = &fl.alias { if !unaliased.contains(a) { fl.alias = Some(f("al", a)); } } }
             _ => {}
         }
     });
